@@ -59,7 +59,7 @@ func rootIdent(e ast.Expr) *ast.Ident {
 }
 
 func (g *genCtx) genFootprint(repo string) string {
-	var ranges, pvars, writes []string
+	var ranges, pvars, writes, rangesNF, critWrites []string
 	for _, rel := range footprintFiles {
 		fset := token.NewFileSet()
 		f, err := parser.ParseFile(fset, filepath.Join(repo, rel), nil, 0)
@@ -122,8 +122,10 @@ func (g *genCtx) genFootprint(repo string) string {
 				mapVars[k] = true
 			}
 			shared := map[string]string{} // ident -> why
+			critical := map[string]bool{} // names whose memory outlives the call: package variables, options, extension values, input bytes
 			for k := range pkgVars {
 				shared[k] = "package variable"
+				critical[k] = true
 			}
 			addParams := func(fl *ast.FieldList, why string) {
 				if fl == nil {
@@ -133,12 +135,16 @@ func (g *genCtx) genFootprint(repo string) string {
 					_, isPtr := p.Type.(*ast.StarExpr)
 					_, isMap := p.Type.(*ast.MapType)
 					_, isSlice := p.Type.(*ast.ArrayType)
+					tyText := exprText(fset, p.Type)
 					for _, nm := range p.Names {
 						if isMapType(p.Type) {
 							mapVars[nm.Name] = true
 						}
 						if why == "receiver" || isPtr || isMap || isSlice {
 							shared[nm.Name] = why
+						}
+						if strings.Contains(tyText, "Options") || tyText == "[]byte" || (why == "receiver" && strings.HasPrefix(rel, "extensions/")) {
+							critical[nm.Name] = true
 						}
 					}
 				}
@@ -215,6 +221,7 @@ func (g *genCtx) genFootprint(repo string) string {
 					}
 					if isMap {
 						ranges = append(ranges, fmt.Sprintf("(%s, %s, %s)", coqStrLit(rel), coqStrLit(fname), coqStrLit(exprText(fset, s.X))))
+						rangesNF = append(rangesNF, fmt.Sprintf("(%s, %s)", coqStrLit(rel), coqStrLit(exprText(fset, s.X))))
 					}
 				case *ast.AssignStmt:
 					if s.Tok == token.DEFINE {
@@ -225,12 +232,16 @@ func (g *genCtx) genFootprint(repo string) string {
 							// plain `x = ...` on a parameter / receiver rebinding a local copy is not a shared write; on a package variable it is
 							if why := shared[id.Name]; why == "package variable" {
 								writes = append(writes, fmt.Sprintf("(%s, %s, %s)", coqStrLit(rel), coqStrLit(fname), coqStrLit(exprText(fset, l))))
+								critWrites = append(critWrites, fmt.Sprintf("(%s, %s)", coqStrLit(rel), coqStrLit(exprText(fset, l))))
 							}
 							continue
 						}
 						if id := rootIdent(l); id != nil {
 							if _, ok := shared[id.Name]; ok {
 								writes = append(writes, fmt.Sprintf("(%s, %s, %s)", coqStrLit(rel), coqStrLit(fname), coqStrLit(exprText(fset, l))))
+								if critical[id.Name] {
+									critWrites = append(critWrites, fmt.Sprintf("(%s, %s)", coqStrLit(rel), coqStrLit(exprText(fset, l))))
+								}
 							}
 						}
 					}
@@ -266,5 +277,10 @@ func (g *genCtx) genFootprint(repo string) string {
 	emit("range_sites", "(string * string * string)", ranges)
 	emit("package_vars", "(string * string)", pvars)
 	emit("shared_writes", "(string * string * string)", writes)
+	sort.Strings(rangesNF)
+	sort.Strings(critWrites)
+	// the robust summaries that Properties/C06.v and C18.v pin (function names left out: extracting a helper is not a change)
+	emit("range_over_map", "(string * string)", rangesNF)
+	emit("critical_writes", "(string * string)", critWrites)
 	return b.String()
 }
